@@ -13,7 +13,7 @@ package encryption
 //@ func Validate
 //@ safety
 //@ prop C09
-//@ ensures[window] ok && expiration != 0 ==> t > ret(time.Now#0) - expiration && t < ret(time.Now#1) + 300000000000
+//@ ensures[window] ok && expiration != 0 ==> t > retfirst(time.Now) - expiration && t < retlast(time.Now) + 300000000000
 //@ ensures[timestamp] ok ==> strconv.Atoi(part(old(cookie.Value), 1)) * 1000000000 == t
 //@ prop C02
 //@ ensures[three-parts] ok ==> nparts(old(cookie.Value)) == 3
@@ -77,3 +77,19 @@ package encryption
 //@ ensures[plain] method == "plain" ==> ret1 == nil && ret0 == codeVerifier
 //@ ensures[s256] method == "S256" ==> ret1 == nil && ret0 == b64enc(base64.RawURLEncoding, crypto_sha256(codeVerifier))
 //@ ensures[other-is-error] method != "plain" && method != "S256" ==> ret1 != nil && ret0 == ""
+
+// ------------------------------------------------------------------ C13 / C19: decrypting arbitrary store bytes never panics
+//@ func (*gcmCipher).Decrypt
+//@ safety
+//@ prop C13 C19
+//@ ensures[error-means-no-plaintext] ret1 != nil ==> ret0 == nil
+//@ ensures[plaintext-only-from-authenticated-open] ret1 == nil ==> called(Open) && ret1(Open) == nil && ret0 == ret0(Open)
+
+//@ func (*cfbCipher).Decrypt
+//@ safety
+//@ prop C13 C19
+//@ ensures[short-input-is-an-error] len(ciphertext) < 16 ==> ret1 != nil && ret0 == nil
+
+//@ func (*base64Cipher).Decrypt
+//@ prop C13
+//@ ensures[undecodable-is-an-error] ret1(DecodeString) != nil ==> ret1 != nil && ret0 == nil && !called(Decrypt)
